@@ -84,6 +84,11 @@ def run(chk):
                      ("R11.3", "to_int_unchecked guards (shared with C11)"), ("R06.3", "state vectors (shared with C06)"), ("R15.3", "wsconst ranges (shared with C15)"),
                      ("R05.4", "non-empty sentences (shared with C05)")):
         chk.rule(rid, txt)
+    # restored predictors: the unchecked indexing relies on every table being read back exactly as it was written
+    from . import c14
+    chk.rule("R14.1", "encode/decode sequences of the hand-written codecs agree (shared with C14)")
+    chk.rule("R14.2", "automaton serialize <-> deserialize_unchecked (shared with C14)")
+    chk.floor("R14.1", "hand-written codec pairs", c14.pairs(chk, w), 7, other=5)
     inv = {}
     raw = []
     for bd in w.all_bodies():
